@@ -18,8 +18,9 @@ RULE = ("labelled data (2-4 classes 0..k-1, d=2 (3 in thorough), 40-200 samples,
 RULE += (" " + 'In a third of the cases the learning range is given explicitly (data_range wider than the data); evaluated sets include samples exactly ON the learned range (learning samples attaining a minimum/maximum, corners).')
 RULE += (" Between the calls the user modifies the copies handed out by get_testing_data / get_learning_data / get_omitted_data (revert_scaling, scale_factor, scale_range, shift_value, shuffle, remove_samples).")
 RULE += (" Half of the evaluated data sets are built directly on the caller's arrays, which must come back unmodified.")
+RULE += (" Densities are also compared at positions exactly on grid nodes / grid lines; evaluated data include the centre / quarter positions of the learned range.")
 RULE += (" The per-class densities are cross-checked against the hat expansion of the estimators' own surpluses; a few standard-mode cases use maximum level 8 (component grids above the 200-point switch).")
-REQUIRED = ["argmax_class", "removed_samples_exact", "entirely_outside_raises", "summary_consistent", "earlier_results_stable",
+REQUIRED = ["density_on_grid_nodes", "argmax_class", "removed_samples_exact", "entirely_outside_raises", "summary_consistent", "earlier_results_stable",
             "testset_prefix_stable", "unlabelled_not_classified", "evaluate_consistent"]
 MIN_NONTRIVIAL = {"quick": 30, "thorough": 500}
 CHUNK = {"quick": 4, "thorough": 30}
@@ -66,7 +67,7 @@ def run_case(case, res):
     cfg = {"d": d, "classes": k, "n": n, "unlabelled_in_learning": with_unl, "split": split, "split_evenly": rng.random() < 0.5,
            "shuffle": rng.random() < 0.5, "mode": rng.choice(["standard", "standard", "dimwise"]), "masslumping": rng.random() < 0.5,
            "one_vs_others": rng.random() < 0.3, "lambda": rng.choice([0.0, 0.01, 0.1]), "lmax": rng.choice([2, 3, 4])}
-    if d == 2 and cfg["mode"] == "standard" and rng.random() < 0.06:
+    if d == 2 and cfg["mode"] == "standard" and rng.random() < 0.1:
         cfg["lmax"], cfg["masslumping"] = 8, True     # component grids above the 200-point switch (255 x 1 ...)
         res.count("large_component_grids")
     res.sample = {"config": cfg}
@@ -150,6 +151,18 @@ def run_case(case, res):
                   "%s: %d of %d samples did not receive the class with the largest density" % (where, int((~ok).sum()), len(ok)),
                   dict(cfg, example={"densities": D[~ok][:2], "assigned": np.asarray(classes)[~ok][:2]}))
 
+    # positions exactly on grid nodes / grid lines of the component grids (quantised or integer features end up there): the densities
+    # the classes are decided with must be the sparse-grid functions defined by the learned surpluses there as well
+    Lg = int(cfg["lmax"]) if cfg["mode"] == "standard" else 3
+    T = np.array([[rng.randrange(1, 2 ** Lg) / 2.0 ** Lg if rng.random() < 0.8 else rng.uniform(0.01, 0.99) for _ in range(d)]
+                  for _ in range(48)])
+    try:
+        Dn, Dnr = densities(T), densities_ref(T)
+    except Exception:
+        Dn, Dnr = None, None
+    if Dn is not None and Dnr is not None:
+        res.close("density_on_grid_nodes", Dn, Dnr, 1e-8 * max(1.0, float(np.max(np.abs(Dnr)))) * 8, "C19_density_differs_from_hat_expansion:on_grid_nodes",
+                  "the estimators' densities at positions on grid nodes / grid lines differ from the hat expansion of their own surpluses", cfg)
     calls = []
     history = []   # (kind, Xn, yn, kept mask, classes)
     testset_classes = list(cl.get_calculated_classes_testset())
@@ -192,6 +205,8 @@ def run_case(case, res):
                 # samples exactly ON the learned range: learning samples attaining a minimum / maximum, corners of the range
                 rows = [X[lab][np.argmin(X[lab][:, j])] for j in range(d)] + [X[lab][np.argmax(X[lab][:, j])] for j in range(d)]
                 rows += [np.where(npr.rand(d) < 0.5, mn, mx) for _ in range(3)] + [mn.copy(), mx.copy()]
+                # centre / quarter positions of the learned range (they scale onto grid nodes up to rounding)
+                rows += [mn + 0.5 * (mx - mn), mn + np.array([rng.choice([0.25, 0.5, 0.75]) for _ in range(d)]) * (mx - mn)]
                 rows += list(X[lab][npr.choice(int(lab.sum()), size=min(m, int(lab.sum())), replace=False)])
                 Xn = np.array(rows, dtype=float)
                 m = len(Xn)
